@@ -148,6 +148,9 @@ impl<'a> SnappyReader<'a> {
             }));
         }
         let chunk_size = chunk_size as usize;
+        if chunk_size > self.compressed_data.len() {
+            return Err(Error::UnexpectedEOF);
+        }
         self.uncompressed_chunk.clear();
         uncompress_to(
             &self.compressed_data[..chunk_size],
@@ -173,6 +176,9 @@ impl<'a> SnappyReader<'a> {
                     len: chunk_size as u64,
                     header: false,
                 }));
+            }
+            if chunk_size as usize > self.compressed_data.len() {
+                return Err(Error::UnexpectedEOF);
             }
             let (c1, c2) = self.compressed_data.split_at(chunk_size as usize);
             uncompress_to(c1, buf)?;
